@@ -162,6 +162,18 @@ def run_cases(sc, wire, cases, name='b', runtime=True, check=False, show=False, 
         if good:
             trace = core.drive(b, good, name=name + 'drv')
             rej, nt, ne, st = judge_traces(sc, cases_path, trace, switches)
+            # order of provider calls in the first clean call of every injector (compared with WireAnalyze's plan, informational)
+            out.ran = {}
+            curk, ncall = None, 0
+            for line in open(trace):
+                e_ = json.loads(line)
+                if e_['e'] == 'reset':
+                    curk = (e_['key'], e_['inj']) if e_['sched'] == 1 else None
+                    ncall = 0
+                elif e_['e'] == 'enter':
+                    ncall += 1
+                elif e_['e'] == 'call' and curk and ncall == 1 and curk not in getattr(out, '_seen_fail', set()):
+                    out.ran.setdefault(curk, []).append(e_['p'])
             out.n_traces, out.n_events, out.states = nt, ne, st
             lines = None
             for (ln, ci, sched, ev, ph) in rej:
